@@ -111,6 +111,20 @@ def main():
     print("selftest %-18s hook silenced @%d -> %s" % ("Trace_Clock", i + 1, v))
     if v[0] != "rejected":
         failures.append("Trace_Clock: silenced hook not noticed")
+    # register echo (C10): a stale read-back of a plain register must be rejected
+    bt = os.path.join(rundir(), "st_bus.ndjson")
+    vlib.sh([exe, "bus-trace", "--events", "6000", "--out", bt], env={"VERIF_SEED": 3})
+    L = lines_of(bt)
+    echo = {65286, 65287, 65344, 65345, 65346, 65347, 65349, 65351, 65352, 65353, 65354, 65355}
+    written = set()
+    i = None
+    for k, line in enumerate(L):
+        r = json.loads(line)
+        if r["ev"] == "init": written = set()
+        if r["ev"] == "bw" and r["a"] in echo: written.add(r["a"])
+        if r["ev"] == "br" and r["a"] in written and r["a"] not in (65287, 65345) and k > 50:
+            i = k; break
+    expect("Trace_RegEcho", "Trace_RegEcho", L, i, lambda r: r.update(v=r["v"] ^ 0x10), drop=False)
     # batch validators
     dp = os.path.join(rundir(), "st_dbg.ndjson")
     vlib.gbv(["debug", "--out", dp, "--family", "malformed"])
